@@ -158,9 +158,11 @@ fn apply_bsd0_patch(patch: &PatchFile, base_data: &[u8]) -> Result<Vec<u8>> {
     );
 
     // Calculate block positions
-    let ctrl_start = 32; // After bsdiff header
-    let data_start = ctrl_start + ctrl_block_size;
-    let extra_start = data_start + data_block_size;
+    let ctrl_start = 32usize; // After bsdiff header
+    let (data_start, extra_start) = ctrl_start
+        .checked_add(ctrl_block_size)
+        .and_then(|d| d.checked_add(data_block_size).map(|e| (d, e)))
+        .ok_or_else(|| Error::invalid_format("BSD0 block sizes overflow".to_string()))?;
 
     // Validate block sizes
     if extra_start > bsdiff_data.len() {
@@ -257,7 +259,7 @@ fn apply_bsd0_patch(patch: &PatchFile, base_data: &[u8]) -> Result<Vec<u8>> {
         // Step 3: Adjust old offset (signed!)
         let old_move_length = if old_move_length_raw & 0x80000000 != 0 {
             // Negative offset
-            let neg_val = 0x80000000u32.wrapping_sub(old_move_length_raw);
+            let neg_val = old_move_length_raw & 0x7FFF_FFFF;
             old_offset = old_offset.saturating_sub(neg_val as usize);
             0
         } else {
